@@ -39,16 +39,30 @@ func (c *Ctx) catalogCollFields() map[*types.Var]bool {
 	return out
 }
 
-// uniqueMaps: run-wide Go maps of JApiCore used to detect repeats, with the reason
-// each belongs (or does not belong) to the rule.
-var h1CoreMaps = map[string]string{
-	"macro":                  "unique",
-	"uniqURLPath":            "unique",
-	"onlyOneProtocolIntoURL": "unique",
-	"similarPaths":           "unique-or-equal",
-	"processedUserTypes":     "visited",
-	"processedByAllOf":       "visited",
-	"expandingMacros":        "visited",
+// h1MapKind classifies a run-wide Go map of JApiCore by its type (not its name):
+// sets (struct{} values) and maps to directives are uniqueness / visited collections whose
+// every insert needs a preceding lookup; a map to strings remembers one value per key and
+// may be re-stored with an equal value; maps to functions (the handler table) and to
+// schema-library rules (uniqueness is enforced by the UserEnums collection in the same
+// function, whose error returns) are not uniqueness collections.
+func h1MapKind(fld *types.Var) string {
+	mp, ok := fld.Type().Underlying().(*types.Map)
+	if !ok {
+		return ""
+	}
+	switch e := mp.Elem().Underlying().(type) {
+	case *types.Struct:
+		if e.NumFields() == 0 {
+			return "unique"
+		}
+	case *types.Pointer:
+		return "unique"
+	case *types.Basic:
+		if e.Info()&types.IsString != 0 {
+			return "unique-or-equal"
+		}
+	}
+	return ""
 }
 
 // RuleH1: every insert into a uniqueness collection is dominated by a membership
@@ -136,8 +150,8 @@ func RuleH1(c *Ctx) {
 			name := ""
 			if sel, ok := ast.Unparen(ix.X).(*ast.SelectorExpr); ok {
 				if fld, ok := info.ObjectOf(sel.Sel).(*types.Var); ok && fld.IsField() && coreT != nil {
-					if fieldOwner(coreT, fld) {
-						kind, name = h1CoreMaps[fld.Name()], fld.Name()
+					if fieldOwner(coreT, fld) && !isOptionCtor(info, fd) && !strings.HasPrefix(fd.Name.Name, "New") {
+						kind, name = h1MapKind(fld), fld.Name()
 					}
 				}
 			}
@@ -677,8 +691,8 @@ func RuleH3(c *Ctx) {
 				switch {
 				case rejects:
 					sc.Holds(key, pos, "dominated by a test that the slot is empty; an occupied slot is an error")
-				case h3SilentOK[key] != "":
-					sc.Exception(key, pos, h3SilentOK[key])
+				case m.Name() == "AddRequest" && strings.HasSuffix(slot, ".Request"):
+					sc.Exception(key, pos, h3SilentWhy)
 				default:
 					sc.Violation(key, pos, fmt.Sprintf("slot %s is protected against overwriting, but an occupied slot is not reported: a second directive of a kind that may occur once is silently ignored (the first one wins) instead of being rejected", slot))
 				}
@@ -691,9 +705,7 @@ func RuleH3(c *Ctx) {
 }
 
 // h3SilentOK: setters whose slot is created on first use by design.
-var h3SilentOK = map[string]string{
-	"AddRequest:c.Interactions[httpID].Request": "the Request record is created on first use: the Request directive and its Body child both call the same setter; Request itself is not in the property's list of singletons",
-}
+const h3SilentWhy = "the Request record is created on first use: the Request directive and its Body child both call the same setter; Request itself is not in the property's list of singletons"
 
 func callReceivingLit(fd *ast.FuncDecl, lit *ast.FuncLit) *ast.CallExpr {
 	var res *ast.CallExpr
